@@ -928,12 +928,13 @@ def ml_gmm_m_step(
     # (Equation 9.25 of Bishop, "Pattern recognition and machine learning", 2006)
     # ...but we use the "computational formula for the variance", i.e.
     #  var = 1/n * sum (P(x-mean)(x-mean))
-    #      = 1/n * sum (Pxx) - mean^2
+    #      = 1/n * (sum (Pxx) - 2 * mean * sum (Px)) + mean^2
+    # (which is 1/n * sum (Pxx) - mean^2 only if the means were just updated)
     if update_variances:
         logger.debug("Update variances.")
-        machine.variances = statistics.sum_pxx / thresholded_n[
-            :, None
-        ] - np.power(machine.means, 2)
+        machine.variances = (
+            statistics.sum_pxx - 2 * machine.means * statistics.sum_px
+        ) / thresholded_n[:, None] + np.power(machine.means, 2)
 
 
 def map_gmm_m_step(
